@@ -15,7 +15,9 @@ from props import common
 from props.kernel_common import heap_item, q, bfail, bok, clock_methods_scan
 
 PROP = 'C05'
-FUNCS = ['Wire.settleAll', 'ClockDriverSimulator.clockAll', 'Simulator._clk_cycle', 'Simulator.clk']
+FUNCS = ['Wire.settleAll', 'ClockDriverSimulator.clockAll', 'Simulator._clk_cycle', 'Simulator.clk',
+         # registration: the domain lists _clk_cycle walks are built by topologicalSort (each sequential leaf once, under the simulator of its driver)
+         'ClockDriverSimulator.__init__', 'ClockDriverSimulator.addClockable', 'Simulator.getOrCreateClockDriverSimulator', 'Simulator.topologicalSort']
 
 
 def _design(rnd):
